@@ -76,6 +76,10 @@ type OnResponse struct {
 	Body       string
 	RawBody    []byte
 	Time       time.Time
+	// GatewayGenerated tells that the response was produced by the gateway itself
+	// (an early response run through the response side of the remedy chain),
+	// not by the API provider.
+	GatewayGenerated bool
 }
 
 func (onResponse *OnResponse) IsFullResponse() bool {
